@@ -121,15 +121,22 @@ func LibGoroutines() int {
 	return n
 }
 
+// stuck: request goroutines that were still running when a wait gave up — they are taken for lost (a server that has them
+// is abandoned) and no later wait waits for them again.
+var stuck int
+
 // waitQuiet waits until no per-request library goroutine is in flight ("" = quiet).
 func waitQuiet(ceiling time.Duration) string {
 	deadline := time.Now().Add(ceiling)
 	for i := 0; ; i++ {
-		if Inflight() == 0 {
+		if Inflight() <= stuck {
 			return ""
 		}
 		if time.Now().After(deadline) {
-			return fmt.Sprintf("%d request goroutine(s) still running after %v", Inflight(), ceiling)
+			n := Inflight()
+			why := fmt.Sprintf("%d request goroutine(s) still running after %v", n-stuck, ceiling)
+			stuck = n
+			return why
 		}
 		if i < 20 {
 			runtime.Gosched()
@@ -945,7 +952,8 @@ func (t *stdioTarget) sentinel(p *stdioPeer) ([]string, string) {
 func (t *stdioTarget) Exchange(in Input) Observed {
 	var o Observed
 	if _, err := t.peer.in.Write(append(append([]byte{}, in.Body...), '\n')); err != nil {
-		o.Problems = append(o.Problems, "write: "+err.Error())
+		o.Problems = append(o.Problems, "the server no longer reads its input: write: "+err.Error())
+		o.Dead = true
 		return o
 	}
 	a, why := t.sentinel(t.peer)
